@@ -52,16 +52,11 @@ theorem table_not_enforced : Generated.FsmTable.enforced = false := by decide
 /-- the trace of a run from the initial state. -/
 abbrev trace (cfg : Cfg) (rib : Bool) (evs : List Event) : List Out := (run (init cfg rib) evs).2
 
-theorem accepted (cfg : Cfg) (rib : Bool) (evs : List Event) :
-    ∃ g, chkAll false g0 (trace cfg rib evs) = some g := by
-  obtain ⟨g, h, _⟩ := run_acc (strict := false) evs _ g0 (rel_init cfg rib) (inv_init cfg rib) (by simp)
-  exact ⟨g, h⟩
-
 /-- **C05, transitions (full).** Whatever the events and their order, every change of the FSM
     variable the peer makes is a transition of RFC 4271 §8.2.2. -/
 theorem only_rfc_transitions (cfg : Cfg) (rib : Bool) (evs : List Event) :
     ∀ a b, Out.fsm a b ∈ trace cfg rib evs → (a, b) ∈ rfcTable := by
-  obtain ⟨g, h⟩ := accepted cfg rib evs
+  obtain ⟨g, h⟩ := run_accepted cfg rib evs
   exact accepted_fsm_rfc h
 
 /-- ... and the `from` of each change really is the state the previous changes led to, as is
@@ -70,7 +65,8 @@ theorem only_rfc_transitions (cfg : Cfg) (rib : Bool) (evs : List Event) :
 theorem labels_are_the_state (cfg : Cfg) (rib : Bool) (evs : List Event) (xs ys : List Out) (o : Out)
     (h : trace cfg rib evs = xs ++ o :: ys) :
     (∀ a b, o = .fsm a b → a = fsmAfter .idle xs) ∧ (∀ c k st, o = .send c k st → st = fsmAfter .idle xs) := by
-  obtain ⟨g, hg⟩ := accepted cfg rib evs
+  obtain ⟨g, hg⟩ := run_accepted cfg rib evs
+  simp only [trace] at h
   rw [h] at hg
   exact accepted_labels hg
 
@@ -124,7 +120,8 @@ theorem leave_closes (cfg : Cfg) (rib : Bool) (evs : List Event) :
 /-- **C05, API (full).** Between two `up` of the neighbor there is a `down`. -/
 theorem up_down_alternate (cfg : Cfg) (rib : Bool) (evs : List Event) (xs ys zs : List Out)
     (h : trace cfg rib evs = xs ++ Out.up :: ys ++ Out.up :: zs) : Out.down ∈ ys := by
-  obtain ⟨g, hg⟩ := accepted cfg rib evs
+  obtain ⟨g, hg⟩ := run_accepted cfg rib evs
+  simp only [trace] at h
   rw [h] at hg
   exact accepted_up_down hg
 
